@@ -122,7 +122,7 @@ def call_resolution(w, e, r, rest, args, kwargs, s):
     if k == "pkg":
         return tables.apply_ext(w, e, ".".join([r[1]] + rest), args, kwargs, s)
     if k == "const":
-        base = G("const:%s.%s" % (r[1], r[2]))
+        base = w.eng.immutable_const(r[1], r[2]) or G("const:%s.%s" % (r[1], r[2]))
         for a in rest[:-1]:
             base = ("attr", base, a)
         if rest:
@@ -134,6 +134,16 @@ def call_resolution(w, e, r, rest, args, kwargs, s):
 def call_on_value(w, e, recv, mname, args, kwargs, s):
     from . import tables
 
+    if recv[0] == "obj" and len(recv) == 3:
+        m = w.prog.find_method(recv[1], mname)
+        if m is not None and m[0] == "repo":
+            fi = m[1]
+            if fi.is_classmethod or fi.is_staticmethod:
+                return apply_repo(w, e, fi, recv[1], args, kwargs, s)
+            return apply_repo(w, e, fi, None, (recv,) + tuple(args), kwargs, s)
+        heap = s.env.get("$heap", {})
+        if (recv, mname) in heap:
+            return call_value(w, e, heap[(recv, mname)], args, kwargs, s)
     nt = recv
     if recv[0] == "global" and recv[1].startswith("const:"):
         lit = w.eng.const_literal(recv[1][6:])
@@ -213,7 +223,7 @@ def call_value(w, e, val, args, kwargs, s):
             return tables.apply_ext(w, e, q[4:], args, kwargs, s)
         if q.startswith("builtin:"):
             return tables.apply_builtin(w, e, q[8:], args, kwargs, s)
-    if val[0] == "attr" and isinstance(val[1], tuple) and val[1] and val[1][0] == "nt":
+    if val[0] == "attr" and isinstance(val[1], tuple) and val[1] and val[1][0] in ("nt", "obj"):
         return call_on_value(w, e, val[1], val[2], args, kwargs, s)
     if val[0] == "attr" and isinstance(val[1], tuple):
         # a bound method taken as a value earlier (sign = key.sign; sign(x)): call it on its receiver
@@ -243,6 +253,11 @@ def bind_params(w, e, fi, args, kwargs, skip_first):
         return None, "too many positional arguments"
     for n, t in zip(names, args):
         mp[n] = t
+    extra_names = []
+    if a.vararg:
+        # *rest receives the surplus positional arguments as a tuple
+        mp["*" + a.vararg.arg] = ("lit", "tuple", tuple(args[len(names):]), None)
+        extra_names.append("*" + a.vararg.arg)
     for n, t in kwargs:
         if n == "**":
             return None, "**kwargs call"
@@ -264,7 +279,7 @@ def bind_params(w, e, fi, args, kwargs, skip_first):
     missing = [n for n in names + kwonly if n not in mp]
     if missing:
         return None, "missing argument(s) %s" % ", ".join(missing)
-    return mp, names + kwonly
+    return mp, names + kwonly + extra_names
 
 
 def apply_repo(w, e, fi, clsbind, args, kwargs, s, closure=None):
@@ -312,7 +327,7 @@ def apply_repo(w, e, fi, clsbind, args, kwargs, s, closure=None):
     will_inline = fi.parent is not None or getattr(fi, "is_lambda", False) or fi.qualname in w.inline or (w.inline and fi.qualname.split(".")[-1].startswith("_") and fi.mod.short == w.fi.mod.short and "@private" in w.inline)
     # ... and a private helper that is analysed in place is also specialised on constant string
     # arguments (message templates, field names), so that e.g. template.format(x) is decided
-    funargs = tuple(sorted(((n, mp[n]) for n in order if _is_callable_term(mp[n]) or (will_inline and is_const(mp[n]) and isinstance(mp[n][2], str))), key=lambda kv: kv[0]))
+    funargs = tuple(sorted(((n, mp[n]) for n in order if _is_callable_term(mp[n]) or (will_inline and is_const(mp[n]) and isinstance(mp[n][2], str)) or (will_inline and n.startswith("*") and mp[n][0] == "lit")), key=lambda kv: kv[0]))
     back = {}
     if funargs:
         # parameters of the *caller* that occur inside such an argument (captured variables of a
@@ -332,6 +347,15 @@ def apply_repo(w, e, fi, clsbind, args, kwargs, s, closure=None):
     sm = w.eng.summary(fi, clsbind_eff, w.inline if mode == "inline" else frozenset(), funargs)
     pmap = {P(n): mp[n] for n in order}
     pmap.update(back)
+    # attributes of tracked objects passed in: the callee's P(self).attr denotes the current value
+    heap = s.env.get("$heap")
+    if heap:
+        for n in order:
+            v = mp[n]
+            if isinstance(v, tuple) and len(v) == 3 and v[0] == "obj":
+                for (o, a), hv in heap.items():
+                    if o == v:
+                        pmap[("attr", P(n), a)] = hv
     if sm is None:
         # recursive call (see Engine.summary): opaque
         s1 = s.copy()
@@ -368,7 +392,9 @@ def apply_repo(w, e, fi, clsbind, args, kwargs, s, closure=None):
             # tested, instantiating a forall fact of the caller) may refute one of its conditions
             if any(s1.contradicts(c) for c in sconds):
                 continue
-            s1.ev("inlined", site, callee, subst(p.events, pmap))
+            evs_sub = subst(p.events, pmap)
+            s1.ev("inlined", site, callee, evs_sub)
+            _replay_heap(s1, evs_sub)
             if p.kind == "raise":
                 x = p.value
                 s1.add(("notok", callterm))
@@ -425,6 +451,17 @@ def apply_repo(w, e, fi, clsbind, args, kwargs, s, closure=None):
         s1.ev("call", site, callee, argterms, (), ("ok", v))
         outs.append((s1, "val", v))
     return outs
+
+
+def _replay_heap(s, events):
+    """attribute stores on tracked objects made inside an inlined callee update the caller's heap"""
+    from .walker import flatten_events, heap_store
+
+    for ev, _d in flatten_events(events):
+        if ev[0] == "store" and isinstance(ev[2], tuple) and len(ev[2]) == 3 and ev[2][0] == "attr":
+            o = ev[2][1]
+            if isinstance(o, tuple) and len(o) == 3 and o[0] == "obj":
+                heap_store(s, o, ev[2][2], ev[3])
 
 
 def _param_names(t):
